@@ -1029,8 +1029,16 @@ fn oracle(ctx: &mut Ctx, idx: usize, sp: &Spec, oc: &Outcome, twin: Option<&Outc
     }
 }
 
-fn key_policy(r: &RecSpec) -> Option<FloatCachePolicy> {
-    make_cache(r)
+/// the DOCUMENTED cache key ("the key is rounded to the specified precision"): every input times ten to its
+/// precision, rounded to the nearest integer (halves away from zero) — computed here, not by the code under
+/// test, so that a key function that merges more inputs than rounding does is not mistaken for the recorded
+/// rounding trade-off
+fn key_policy(r: &RecSpec) -> Option<Vec<i32>> {
+    r.cache.as_ref().map(|(_, precs)| precs.clone())
+}
+
+fn documented_key(precs: &[i32], inputs: &[f64]) -> Vec<i64> {
+    inputs.iter().zip(precs.iter()).map(|(v, p)| (v * 10f64.powi(*p)).round() as i64).collect()
 }
 
 fn oracle_inner(ctx: &mut Fails, idx: usize, sp: &Spec, oc: &Outcome, twin: Option<&Outcome>, unc: Option<&Outcome>) {
@@ -1152,8 +1160,8 @@ fn oracle_inner(ctx: &mut Fails, idx: usize, sp: &Spec, oc: &Outcome, twin: Opti
     let mut sum_el = (0.0f64, 0.0f64);
     let mut all_ok = true;
     // --- the cache must be transparent: what the predictor would be handed on every edge is known from the
-    // run without cache (it depends on the time state only); the cache key of those inputs comes from the
-    // real `float_key_to_int_key`.  An edge all of whose same-key predecessors (same record) were handed
+    // run without cache (it depends on the time state only); the cache key of those inputs is the documented
+    // one (`documented_key`: rounding), not the code's own `float_key_to_int_key`.  An edge all of whose same-key predecessors (same record) were handed
     // the same inputs must be charged the rate at its own inputs whether it is a hit or a miss; when a
     // predecessor with the same key was handed different inputs, the recorded finding
     // predict/cache-rounding-collision applies instead.
@@ -1219,11 +1227,11 @@ fn oracle_inner(ctx: &mut Fails, idx: usize, sp: &Spec, oc: &Outcome, twin: Opti
             let policy = if is_main { policy_main.as_ref() } else { policy_sus.as_ref() };
             match (policy, unc_inputs.get(i).copied().flatten()) {
                 (Some(p), Some(mine)) => {
-                    let my_key = p.float_key_to_int_key(&[mine.0, mine.1]);
+                    let my_key = documented_key(p, &[mine.0, mine.1]);
                     (0..i).any(|k| {
                         used_main[k] == is_main
                             && match unc_inputs.get(k).copied().flatten() {
-                                Some(theirs) => p.float_key_to_int_key(&[theirs.0, theirs.1]) == my_key && !same_inputs(mine, theirs),
+                                Some(theirs) => documented_key(p, &[theirs.0, theirs.1]) == my_key && !same_inputs(mine, theirs),
                                 None => true,
                             }
                     })
@@ -1537,6 +1545,25 @@ fn generate(rng: &mut Rng) -> Spec {
             grades[b] = grades[a];
         }
     }
+    // grades around the rounding boundaries of the cache key: several ids at ONE speed whose grades, in the
+    // model's own unit and scaled by the grade precision, are -1.4, -0.6, -0.5, 0, 0.4, 0.5 … — a rounded key
+    // keeps -1.4 / -0.6 / -0.5 (key -1) apart from 0 / 0.4 (key 0) and from 0.5 / 1.0 (key 1)
+    let mut special: Vec<usize> = vec![];
+    if let Some((_, precs)) = &rec.cache {
+        if precs.len() == 2 && n_ids >= 3 && rng.chance(1, 2) {
+            let p = precs[1];
+            let a = rng.below(n_ids);
+            special.push(a);
+            let m = 2 + rng.below(4.min(n_ids - 1));
+            for _ in 0..m {
+                let b = rng.below(n_ids);
+                speeds[b] = speeds[a];
+                let t = *rng.pick(&[-1.4, -1.0, -0.6, -0.5, -0.4, 0.0, 0.0, 0.4, 0.5, 0.6, 1.0, -2.5, 2.5]);
+                grades[b] = t / 10f64.powi(p) * si_g(&rec.gu) / si_g(&ggu);
+                special.push(b);
+            }
+        }
+    }
     // malformed: a non-positive speed, a short grade table
     if rng.chance(1, 40) {
         let a = rng.below(n_ids);
@@ -1560,7 +1587,7 @@ fn generate(rng: &mut Rng) -> Spec {
     let zero_len = rng.chance(1, 30);
     let mut edges: Vec<(usize, f64)> = (0..n_edges)
         .map(|_| {
-            let id = if profile == 4 { rng.below(n_ids.min(3)) } else { rng.below(n_ids) };
+            let id = if !special.is_empty() && rng.chance(1, 2) { *rng.pick(&special) } else if profile == 4 { rng.below(n_ids.min(3)) } else { rng.below(n_ids) };
             let d = if zero_len && rng.chance(1, 20) {
                 0.0
             } else if long {
